@@ -1753,7 +1753,7 @@ class Data(BaseCartesianData):
         subarray_slices = None
 
         if subset_state:
-            if isinstance(subset_state, SliceSubsetState) and view is None:
+            if isinstance(subset_state, SliceSubsetState) and view is None and axis is None:
                 mask = None
                 data = subset_state.to_array(self, cid)
             else:
